@@ -290,9 +290,12 @@ func (e *Engine) extractModel(as []*Term) (map[string]interface{}, error) {
 			if err != nil {
 				return nil, err
 			}
-			ln := int(vals[0])
+			ln := int(int64(vals[0]))
 			if ln > len(v.B) {
 				ln = len(v.B)
+			}
+			if ln < 0 {
+				ln = 0 // variable not constrained on this path
 			}
 			bs := make([]byte, ln)
 			for i := range bs {
